@@ -1,6 +1,8 @@
 """Wiring rules shared by several properties: the env factory, the solve command, the graph game, small coalition helpers."""
 from __future__ import annotations
 
+import ast
+
 from ..core import AnalysisError, AnchorMissing, Program
 from ..report import Collector
 from ..terms import is_call_to, is_global, subterms
@@ -20,7 +22,7 @@ def rule_env_factory(prog: Program, col: Collector) -> None:
     e = ctor[0]
     game = e.args[0] if e.args else e.kwargs.get("game")
     okg = game is not None and is_call_to(game, P + "game.IncompleteCooperativeGame") and game[2] and game[2][0] == ("attr", SELF, "number_of_players")
-    col.check(okg, ref.where(e.node), ref.short, "the agent's game has self.number_of_players players", construct="env-game", necessity="")
+    col.check(okg, ref.where(e.node), ref.short, "the agent's game has self.number_of_players players", construct="env-game", necessity="the agent's game must have the configured number of players")
     known = e.args[2] if len(e.args) > 2 else e.kwargs.get("initially_known_coalitions")
     okk = known is not None and is_call_to(known, P + "coalitions.minimal_game_coalitions") and known[2] == (game,)
     col.check(okk, ref.where(e.node), ref.short, "initially known coalitions = minimal_game_coalitions(that game)", construct="env-minimal",
@@ -34,11 +36,11 @@ def rule_env_factory(prog: Program, col: Collector) -> None:
     gen = e.args[1] if len(e.args) > 1 else e.kwargs.get("game_generator")
     okgen = gen is not None and (any(s[0] == "index" and is_global(s[1], P + "generators.GENERATORS") and s[2] == ("attr", SELF, "game_generator") for s in subterms(gen))
                                  or gen == ("attr", SELF, "game_generator_fn"))
-    col.check(okgen, ref.where(e.node), ref.short, "hidden games come from GENERATORS[self.game_generator]", construct="env-generator", necessity="")
+    col.check(okgen, ref.where(e.node), ref.short, "hidden games come from GENERATORS[self.game_generator]", construct="env-generator", necessity="hidden games must come from the configured generator")
     if gen is not None and is_call_to(gen, "functools.partial"):
         a = gen[2]
         col.check(len(a) == 3 and a[1] == ("attr", SELF, "number_of_players"), ref.where(e.node), ref.short,
-                  "the generator partial binds (number_of_players, rng) positionally", construct="env-generator-args", necessity="")
+                  "the generator partial binds (number_of_players, rng) positionally", construct="env-generator-args", necessity="generators are called as generator(number_of_players, rng)")
     rets = list(ft.of_kind("return"))
     lin = ("attr", SELF, "linear")
 
@@ -62,7 +64,7 @@ def rule_env_factory(prog: Program, col: Collector) -> None:
         else:
             n_bad += 1
     col.check(n_lin >= 1 and n_plain >= 1 and not n_bad, ref.where(), ref.short, "returns the env itself, or its linear wrapper iff self.linear",
-              construct="env-return", necessity="")
+              construct="env-return", necessity="the linear wrapper is what --linear asks for; returning it unconditionally (or never) changes the action space of every run")
 
 
 def rule_solve_wiring(prog: Program, col: Collector) -> None:
@@ -85,13 +87,13 @@ def rule_solve_wiring(prog: Program, col: Collector) -> None:
     ok = nxt is not None and rst is not None and nxt[0] == "attr" and rst[0] == "attr" and nxt[2] == "next_step" and rst[2] == "after_reset" and nxt[1] == rst[1] \
         and nxt[1][0] == "call" and nxt[1][1] == ("index", ("global", P + "solvers.SOLVERS"), ("attr", pa, "solver")) and nxt[1][2] == (inst,)
     ok = ok and sum(1 for c in ft.calls() if c.term == nxt[1]) == 1      # constructed once: terms carry no identity, call events do
-    col.check(ok, ref.where(e.node), ref.short, "next_step and after_reset are bound methods of the one SOLVERS[args.solver](instance) object", construct="solve-solver", necessity="")
+    col.check(ok, ref.where(e.node), ref.short, "next_step and after_reset are bound methods of the one SOLVERS[args.solver](instance) object", construct="solve-solver", necessity="next_step and after_reset must be bound methods of one solver object: the hook prepares the state the next step uses")
     ok2 = b.get("env_generator") == ("attr", inst, "get_env") and b.get("repetitions") == ("attr", pa, "solve_repetitions") and \
         b.get("gap_func") == ("attr", inst, "gap_function_callable") and b.get("processes") == ("attr", inst, "parallel_environments")
-    col.check(ok2, ref.where(e.node), ref.short, "env factory, repetitions, gap function and process count come from the instance / arguments", construct="solve-args", necessity="")
+    col.check(ok2, ref.where(e.node), ref.short, "env factory, repetitions, gap function and process count come from the instance / arguments", construct="solve-args", necessity="the evaluation must run the configured environment, repetitions, gap function and process count")
     lim = b.get("run_steps_limit")
     ok3 = lim is not None and has_subterm(lim, ("attr", inst, "run_steps_limit"))
-    col.check(ok3, ref.where(e.node), ref.short, "the step limit is the instance's run_steps_limit (or 2**n when unset)", construct="solve-limit", necessity="")
+    col.check(ok3, ref.where(e.node), ref.short, "the step limit is the instance's run_steps_limit (or 2**n when unset)", construct="solve-limit", necessity="the trajectory length is the configured step limit")
 
 
 def rule_graph_game(prog: Program, col: Collector) -> None:
@@ -135,17 +137,37 @@ def rule_graph_game(prog: Program, col: Collector) -> None:
         if len(lp) == 2 and is_call_to(lp[0][3], "range") and is_call_to(lp[1][3], "range"):
             i, j = lp[0][2], lp[1][2]
             okp = e.index == ("tuple", (j, i)) and lp[1][3][2] and lp[1][3][2][0] == i and lp[0][3][2] == (("index", ("attr", mp, "shape"), ("const", 0)),)
-    col.check(okp, pref.where(), pref.short, "matrix[j, i] = 0 for all j >= i", construct="graph-polish", necessity="")
+    col.check(okp, pref.where(), pref.short, "matrix[j, i] = 0 for all j >= i", construct="graph-polish", necessity="only the upper triangle may carry weight: get_value sums matrix[i, j] over pairs i < j")
+    # no per-object state besides the matrix: the normalisers rescale _graph_matrix in place, so anything derived from it and kept on the
+    # object (a value memo, a cached total) is stale afterwards
+    allowed = {"_graph_matrix", "number_of_players"}
+    extra = []
+    for name, ref in mm.items():
+        rft = fterms(prog, ref)
+        for e in list(rft.of_kind("store")) + list(rft.of_kind("aug")):
+            t = e.target
+            while isinstance(t, tuple) and t[0] == "index":
+                t = t[1]
+            if isinstance(t, tuple) and t[0] == "attr" and t[1] == SELF and t[2] not in allowed:
+                extra.append((ref, e, t[2]))
+    for n in mm["__init__"].cls.body:
+        if isinstance(n, (ast.Assign, ast.AnnAssign)):
+            tg = n.targets[0] if isinstance(n, ast.Assign) else n.target
+            if isinstance(tg, ast.Name) and (n.value is not None) and isinstance(n.value, (ast.Dict, ast.List, ast.Set, ast.Call)):
+                extra.append((mm["__init__"], None, tg.id + " (class-level container)"))
+    col.check(not extra, extra[0][0].where(extra[0][1].node if extra[0][1] is not None else None) if extra else init.where(), "graph_game.GraphCooperativeGame",
+              "the graph game keeps no state besides the weight matrix" + (f" (found: {sorted({x[2] for x in extra})})" if extra else ""), construct="graph-extra-state",
+              necessity="normalize/denormalize rescale the matrix in place: a memo of values kept on the object survives one of them and get_value answers for the old scale")
     c = mm["copy"]
     rv = list(fterms(prog, c).of_kind("return"))
     okcp = len(rv) == 1 and is_call_to(rv[0].value, P + "graph_game.GraphCooperativeGame") and rv[0].value[2] and \
         (rv[0].value[2][0] == ("call", ("attr", M, "copy"), (), ()) or is_call_to(rv[0].value[2][0], "numpy.copy") or rv[0].value[2][0] == M)
-    col.check(okcp, c.where(), c.short, "copy() builds a new game from the matrix (the constructor copies)", construct="graph-copy", necessity="")
+    col.check(okcp, c.where(), c.short, "copy() builds a new game from the matrix (the constructor copies)", construct="graph-copy", necessity="a copy that shares the matrix is normalised together with its original")
     gvs = mm["get_values"]
     rv = list(fterms(prog, gvs).of_kind("return"))
     okv = len(rv) == 1 and is_call_to(rv[0].value, "numpy.fromiter", "numpy.array") and any(
         is_call_to(s, "map") and s[2] and s[2][0] == ("attr", SELF, "get_value") for s in subterms(rv[0].value))
-    col.check(okv, gvs.where(), gvs.short, "get_values maps get_value over the requested coalitions (all coalitions in id order by default)", construct="graph-values", necessity="")
+    col.check(okv, gvs.where(), gvs.short, "get_values maps get_value over the requested coalitions (all coalitions in id order by default)", construct="graph-values", necessity="get_values must list get_value over the requested (or all) coalitions in order")
 
 
 def rule_known_coalitions(prog: Program, col: Collector) -> None:
@@ -172,3 +194,31 @@ def rule_known_coalitions(prog: Program, col: Collector) -> None:
                       v[2] == ("call", ("global", P + "coalitions.player_to_coalition"), (v[3][0][0],), ())) for v in vals)
     col.check(has_empty and has_grand and has_single and len(ys) == 3, ref.where(), ref.short, "minimal information = {empty, grand} + all singletons",
               construct="minimal-coalitions", necessity="every computer asserts these are known")
+
+
+def rule_seed_integrity(prog: Program, col: Collector) -> None:
+    col.rule("SEED", "ModelInstance never rewrites its seed; the instance generator is default_rng(self.seed), created unconditionally", 2)
+    NEC = ("identically seeded runs must draw identical games: a seed that is replaced (0 treated as 'unset', clamped, re-derived from the clock) or a "
+           "generator created from something else makes the run a function of something other than --seed")
+    methods = prog.methods("run.model.ModelInstance")
+    stores = []
+    rng_stores = []
+    for name, ref in methods.items():
+        ft = fterms(prog, ref)
+        for e in list(ft.of_kind("store")) + list(ft.of_kind("aug")):
+            if e.obj == SELF and e.attr == "seed":
+                stores.append((ref, e))
+            if e.obj == SELF and e.attr == "game_generator_rng":
+                rng_stores.append((ref, e))
+    for ref, e in stores:
+        col.violation(ref.where(e.node), ref.short, "seed-rewritten", f"{ref.short} assigns self.seed", NEC)
+    if not stores:
+        col.ok(prog.func("run.model.ModelInstance.__post_init__").where(), "run.model.ModelInstance", "no method assigns self.seed (the dataclass field is its only definition)")
+    if not rng_stores:
+        raise AnalysisError("ModelInstance.game_generator_rng is not assigned anywhere: anchor vanished")
+    for ref, e in rng_stores:
+        v = e.value
+        ok_val = is_call_to(v, "numpy.random.default_rng", "numpy.random.Generator", "numpy.random.RandomState") and v[2] in ((("attr", SELF, "seed"),), (("attr", SELF, "seed_32"),)) and not v[3]
+        guards = [f for f in e.ctx if f[0] in ("if", "for", "while", "try")]
+        col.check(ok_val and not guards and ref.node.name in ("__post_init__", "__init__"), ref.where(e.node), ref.short,
+                  "game_generator_rng = default_rng(self.seed), unconditionally at construction", construct="instance-rng", necessity=NEC)
